@@ -3,7 +3,7 @@ from .assign import assign_check
 
 
 def run():
-    chk = assign_check("C10")
+    chk = assign_check("C10", shapes=["seq", "nest", "dict", "call"])     # (the shapes flat / pos have no user-controlled parts)
     if isinstance(chk, int):
         return chk
     chk.assumptions += ["dirty-equals is not installed in this sandbox (is_dirty_equal is constantly False): that "
